@@ -367,6 +367,11 @@ def gen_case(rng, idx):
     else:
         c.format_text = None
     c.order = list(rng.permutation(3))
+    c.presave = None
+    if rng.random() < 0.3:
+        c.presave = [str(rng.choice([".npd", ".ts", ".s%dp" % min(n, 4),
+                                     ".npd", ""]))
+                     for _ in range(int(rng.integers(1, 3)))]
     c.fsave_alias = rng.random() < 0.3
     c.use_fload = rng.random() < 0.3
     return c
@@ -650,6 +655,15 @@ def build_script(c):
     if c.dp is not None:
         L["set_dp"] = s.op("vnadata_set_dprecision", "$vd", c.dp)
     base = "k%d" % c.idx
+    if getattr(c, "presave", None):
+        # the same object was saved before, in other file types: what an
+        # earlier save resolved (file type by extension, untyped format
+        # entries) must not leak into what this one writes.  The file type
+        # setting is put back to what the case asks for.
+        for k, ext in enumerate(c.presave):
+            s.op("vnadata_save", "$vd", R.qs("%sp%d%s" % (base, k, ext)))
+            s.op("unlink", R.qs("%sp%d%s" % (base, k, ext)))
+        s.op("vnadata_set_filetype", "$vd", c.ft if c.ft is not None else 0)
     names = [base + "a" + c.ext, base + "b" + c.ext, base + "c" + c.ext]
     c.names = names
     c.fsave_path = names[2]
